@@ -59,7 +59,7 @@ class C01(core.Check):
     GEN = ['gen_funnel']
     PROPS = 'props/C01.v'
     MODEL_IMPORTS = ['gen.Gen_funnel', 'model.Funnel']
-    QUICK_CASES = 520
+    QUICK_CASES = 420
     THOROUGH_CASES = 8000
     PARTIAL = ('proved only for the exception funnel, float_safe/FloatErrorHandler, OS error translation, TIME$/DATE$/'
                'ENVIRON validation and the PEEK preset table (plus, in C10/C14/C20, string-pointer dereference and '
@@ -128,6 +128,8 @@ class C01(core.Check):
         c.append({'k': 'file', 'bytes': _tok([(10, b'\x91 1'), (65535, b'\x91 2')]), 'name': 'X'})
         c.append({'k': 'file', 'bytes': _tok([(i + 1, b'\x8f' + b'x' * 240) for i in range(280)]), 'name': 'X'})
         c.append({'k': 'prog', 'lines': ['WIDTH 40', 'SCREEN 0,,5,5', 'WIDTH 80', 'PRINT "x"'], 'default': False, 'video': 'vga'})
+        c.append({'k': 'prog', 'lines': ['1 ON ERROR GOTO 9000', '2 DIM ZZ%(INT((FRE(0)-17)/2))', '10 FOR I=1 TO 3', '20 PRINT I', '30 NEXT', '40 END', '9000 RESUME NEXT', 'RUN', 'GOTO 30'],
+                  'default': True})
         c.append({'k': 'prog', 'lines': ['SCREEN 7,,6,6', 'SCREEN 9', 'SCREEN 0,,0,0', 'PRINT "x"'], 'default': False, 'video': 'vga'})
         return c
 
@@ -228,6 +230,34 @@ class C01(core.Check):
                 out.append(rng.choice(self.FAULT + self.AFTER))
         return out
 
+    LOWMEM_BODY = ['FOR I=1 TO 3:PRINT I:NEXT', 'FOR J%=1 TO 2', 'NEXT', 'NEXT J%', 'WHILE W<2:W=W+1:WEND', 'A$=STRING$(40,"x")+"y"', 'B$=A$+A$', 'DIM NEWARR(5)',
+                   'NEWARR2(3)=1', 'DEF FNA(X)=X+1', 'PRINT FNA(2)', 'GOSUB 8000', 'X1=1:X2=2:X3=3', 'D#=1.5#', 'READ R1,R2$', 'DATA 5,"five"', 'SWAP A$,B$',
+                   'LSET A$="q"', 'MID$(A$,1)="zz"', 'INPUT$(0)', 'OPEN "LM" FOR OUTPUT AS 1:PRINT#1,"x":CLOSE', 'FIELD #1,2 AS F$', 'ERASE NEWARR', 'CLEAR', 'CHAIN "X"',
+                   'COMMON A$,X1', 'ON X1 GOSUB 8000', 'KEY 1,"abc"', 'PLAY "C"', 'DRAW "U5"', 'LINE INPUT L$', 'RANDOMIZE 1', 'PRINT USING "##";1', 'WRITE A$,X1',
+                   'GET (0,0)-(3,3),NEWARR', 'S$=SPACE$(255)', 'T$=S$+S$', 'PRINT FRE("")', 'OPTION BASE 1', 'DEFINT A-Z:NEWV=1', 'CALL NEWSUB', 'POKE VARPTR(X1),1']
+
+    def lowmem(self):
+        """variable memory nearly full: every statement that allocates (new scalars, FOR counters, arrays, strings, DEF FN, file
+        buffers) can fail with Out of memory part-way; the program goes on through ON ERROR ... RESUME NEXT or from direct mode"""
+        rng = self.rng
+        # k = 13..18 leaves 1..7 bytes: too few for a new scalar (8 bytes and up), k = 19..30 room for one or two
+        k = rng.choice([rng.randrange(12, 20)] * 3 + [rng.randrange(19, 32)] * 2 + [44, 60, 100, 200])
+        prog = ['1 ON ERROR GOTO 9000'] if rng.random() < 0.7 else []
+        prog.append('2 DIM ZZ%%(INT((FRE(0)-%d)/2))' % k if rng.random() < 0.8 else '2 ZZ$=STRING$(200,"z"):CLEAR ,%d' % rng.choice([5200, 5400, 6000, 8000]))
+        n = 10
+        if rng.random() < 0.4:
+            loop = rng.choice([['FOR I=1 TO 3', 'PRINT I', 'NEXT'], ['FOR J%=1 TO 2', 'NEXT J%'], ['WHILE NW<2', 'NW=NW+1', 'WEND'], ['GOSUB 8000', 'NG=1']])
+            for l in loop:
+                prog.append('%d %s' % (n, l))
+                n += 10
+        for _ in range(rng.randrange(2, 8)):
+            prog.append('%d %s' % (n, rng.choice(self.LOWMEM_BODY)))
+            n += 10
+        prog += ['8000 RETURN', '9000 RESUME NEXT']
+        after = [rng.choice(['GOTO %d' % rng.choice(range(10, n, 10)), 'CONT', 'PRINT FRE(0)', 'RUN', 'NEXT', 'ERASE ZZ%', rng.choice(self.LOWMEM_BODY)])
+                 for _ in range(rng.randrange(1, 4))]
+        return prog + ['RUN'] + after
+
     def tokfile(self):
         rng = self.rng
         import struct
@@ -277,7 +307,10 @@ class C01(core.Check):
             elif r < 0.08:
                 out.append({'k': 'prog', 'lines': self.memwalk(), 'default': rng.random() < 0.5})
                 hist['memwalk'] = hist.get('memwalk', 0) + 1
-            elif r < 0.12:
+            elif r < 0.1:
+                out.append({'k': 'prog', 'lines': self.lowmem(), 'default': rng.random() < 0.3})
+                hist['lowmem'] = hist.get('lowmem', 0) + 1
+            elif r < 0.14:
                 pre = rng.choice([[], self.scenario(), ['10 PRINT 1 +* 2', 'RUN'], ['10 PRINT 1', '20 GOTO 10'], [self.stmt()]])
                 out.append({'k': 'prog', 'lines': pre, 'keys': self.typed(), 'default': rng.random() < 0.5})
                 hist['interactive'] = hist.get('interactive', 0) + 1
